@@ -1,0 +1,130 @@
+//go:build verif
+
+package characteristic
+
+// Contracts for package characteristic, checked by /verif (govc). Comment-only file: it adds no declarations.
+
+// callcount(): number of application callbacks invoked so far (incremented by every call of an unknown func value).
+//@ ghost callcount() int
+// application callbacks never write the library's model objects (stated assumption, DESIGN.md section 8.6)
+// and never register or remove callbacks while one runs (no func-typed memory cell changes during a callback)
+//@ callbackframe github.com/brutella/hc/characteristic.Characteristic, heapof(func)
+
+// ---- permissions (C11)
+//@ pred hasPerm(perms, p) = exists(i, 0, len(perms), perms[i] == p)
+
+//@ func readPerm(perms) (ok)
+//@   pure
+//@   ensures ok == hasPerm(perms, "pr")
+//@   loop 0
+//@     invariant noneYet: forall(i, 0, loopidx, perms[i] != "pr")
+//@     invariant idx: 0 <= loopidx && loopidx <= len(perms)
+//@ func writePerm(permissions) (ok)
+//@   pure
+//@   ensures ok == hasPerm(permissions, "pw")
+//@   loop 0
+//@     invariant noneYet: forall(i, 0, loopidx, permissions[i] != "pw")
+//@     invariant idx: 0 <= loopidx && loopidx <= len(permissions)
+//@ func eventPerm(permissions) (ok)
+//@   pure
+//@   ensures ok == hasPerm(permissions, "ev")
+//@   loop 0
+//@     invariant noneYet: forall(i, 0, loopidx, permissions[i] != "ev")
+//@     invariant idx: 0 <= loopidx && loopidx <= len(permissions)
+
+//@ func (c *Characteristic) IsReadable() (ok)
+//@   requires c != nil
+//@   pure
+//@   ensures ok == hasPerm(c.Perms, "pr")
+//@ func (c *Characteristic) IsWritable() (ok)
+//@   requires c != nil
+//@   pure
+//@   ensures ok == hasPerm(c.Perms, "pw")
+//@ func (c *Characteristic) IsObservable() (ok)
+//@   requires c != nil
+//@   pure
+//@   ensures ok == hasPerm(c.Perms, "ev")
+
+// ---- declared type and range (C12)
+//@ pred isIntFormat(f) = f == "uint8" || f == "uint16" || f == "uint32" || f == "uint64" || f == "int32"
+//@ pred isStrFormat(f) = f == "string" || f == "tlv8" || f == "data"
+//@ pred floatInRange(c, x) = (typeis(c.MaxValue, "float64") && typeis(c.MinValue, "float64") && asfloat(c.MinValue) <= asfloat(c.MaxValue) ==> asfloat(c.MinValue) <= x && x <= asfloat(c.MaxValue)) &&
+//@      (typeis(c.MaxValue, "float64") && !typeis(c.MinValue, "float64") ==> x <= asfloat(c.MaxValue) || isnan(asfloat(c.MaxValue))) &&
+//@      (!typeis(c.MaxValue, "float64") && typeis(c.MinValue, "float64") ==> x >= asfloat(c.MinValue) || isnan(asfloat(c.MinValue)))
+//@ pred intInRange(c, x) = (typeis(c.MaxValue, "int") && typeis(c.MinValue, "int") && asint(c.MinValue) <= asint(c.MaxValue) ==> asint(c.MinValue) <= x && x <= asint(c.MaxValue)) &&
+//@      (typeis(c.MaxValue, "int") && !typeis(c.MinValue, "int") ==> x <= asint(c.MaxValue)) &&
+//@      (!typeis(c.MaxValue, "int") && typeis(c.MinValue, "int") ==> x >= asint(c.MinValue))
+//@ pred valOK(c, v) = (c.Format == "float" ==> typeis(v, "float64") && !isnan(asfloat(v)) && !isinf(asfloat(v)) && floatInRange(c, asfloat(v))) &&
+//@      (isIntFormat(c.Format) ==> typeis(v, "int") && intInRange(c, asint(v))) &&
+//@      (c.Format == "bool" ==> typeis(v, "bool")) && (isStrFormat(c.Format) ==> typeis(v, "string"))
+//@ pred knownFormat(f) = f == "float" || isIntFormat(f) || f == "bool" || isStrFormat(f)
+//@ pred callbacksOK(c) = forall(i, 0, len(c.valueChangeFuncs), c.valueChangeFuncs[i] != nil) && forall(j, 0, len(c.connValueUpdateFuncs), c.connValueUpdateFuncs[j] != nil)
+//@ pred wellTyped(c) = c != nil && knownFormat(c.Format) && callbacksOK(c) && (c.Value == nil || valOK(c, c.Value))
+
+//@ func (c *Characteristic) clampFloat(value) (r)
+//@   requires c != nil
+//@   pure
+//@   ensures typeis(r, "float64") && (isnan(value) == isnan(asfloat(r))) && (!isnan(value) && !isinf(value) ==> floatInRange(c, asfloat(r)))
+//@   ensures !isnan(value) && !isinf(value) && !(typeis(c.MaxValue, "float64") && isinf(asfloat(c.MaxValue))) && !(typeis(c.MinValue, "float64") && isinf(asfloat(c.MinValue))) ==> !isinf(asfloat(r)) && !isnan(asfloat(r))
+//@ func (c *Characteristic) clampInt(value) (r)
+//@   requires c != nil
+//@   pure
+//@   ensures typeis(r, "int") && intInRange(c, asint(r))
+//@ func (c *Characteristic) convert(v) (r)
+//@   requires c != nil
+//@   pure
+//@   ensures c.Format == "float" ==> typeis(r, "float64")
+//@   ensures isIntFormat(c.Format) ==> typeis(r, "int")
+//@   ensures c.Format == "bool" ==> typeis(r, "bool")
+//@   ensures isStrFormat(c.Format) ==> typeis(r, "string")
+
+//@ func (c *Characteristic) onValueUpdate(funcs, newValue, oldValue)
+//@   requires c != nil && forall(i, 0, len(funcs), funcs[i] != nil)
+//@   modifies heap, callcount
+//@   ensures sameobj(c) && sameheap("func") && callcount() >= old(callcount())
+//@   loop 0
+//@     invariant idx: 0 <= loopidx && loopidx <= len(funcs)
+//@     invariant same: sameobj(c) && sameheap("func") && callcount() >= old(callcount())
+//@     invariant nonnil: forall(i, 0, len(funcs), funcs[i] != nil)
+//@ func (c *Characteristic) onValueUpdateFromConn(funcs, conn, newValue, oldValue)
+//@   requires c != nil && forall(i, 0, len(funcs), funcs[i] != nil)
+//@   modifies heap, callcount
+//@   ensures sameobj(c) && sameheap("func") && callcount() >= old(callcount())
+//@   loop 0
+//@     invariant idx: 0 <= loopidx && loopidx <= len(funcs)
+//@     invariant same: sameobj(c) && sameheap("func") && callcount() >= old(callcount())
+//@     invariant nonnil: forall(i, 0, len(funcs), funcs[i] != nil)
+
+// bounds declared by the constructors are finite floats (C15 pins them); needed so that clamping yields a finite value
+//@ pred finiteBounds(c) = (typeis(c.MaxValue, "float64") ==> !isinf(asfloat(c.MaxValue)) && !isnan(asfloat(c.MaxValue))) && (typeis(c.MinValue, "float64") ==> !isinf(asfloat(c.MinValue)) && !isnan(asfloat(c.MinValue)))
+
+//@ func (c *Characteristic) updateValue(value, conn, checkPerms)
+//@   requires wellTyped(c) && finiteBounds(c)
+//@   modifies heap, callcount
+//@   ensures typed: wellTyped(c)
+//@   ensures sameMeta: c.Format == old(c.Format) && c.Perms == old(c.Perms) && c.MinValue == old(c.MinValue) && c.MaxValue == old(c.MaxValue) && c.ID == old(c.ID)
+//@   ensures noWrite: checkPerms && !old(hasPerm(c.Perms, "pw")) ==> c.Value == old(c.Value) && callcount() == old(callcount())
+//@   ensures noRead: !old(hasPerm(c.Perms, "pr")) ==> c.Value == old(c.Value)
+
+//@ func (c *Characteristic) getValue(conn) (v)
+//@   requires wellTyped(c) && finiteBounds(c)
+//@   modifies heap, callcount
+//@   ensures wellTyped(c) && v == c.Value
+
+//@ func (c *Characteristic) UpdateValue(value)
+//@   requires wellTyped(c) && finiteBounds(c)
+//@   modifies heap, callcount
+//@   ensures wellTyped(c)
+//@ func (c *Characteristic) UpdateValueFromConnection(value, conn)
+//@   requires wellTyped(c) && finiteBounds(c)
+//@   modifies heap, callcount
+//@   ensures wellTyped(c)
+//@   ensures noWrite: !old(hasPerm(c.Perms, "pw")) ==> c.Value == old(c.Value) && callcount() == old(callcount())
+//@ func (c *Characteristic) GetValue() (v)
+//@   requires wellTyped(c) && finiteBounds(c)
+//@   modifies heap, callcount
+//@   ensures wellTyped(c) && v == c.Value
+//@ func (c *Characteristic) GetValueFromConnection(conn) (v)
+//@   requires wellTyped(c) && finiteBounds(c)
+//@   modifies heap, callcount
+//@   ensures wellTyped(c) && v == c.Value
